@@ -63,7 +63,7 @@ ZipFam(e, t) ==
   {S("z", c, "echo", "0", "first", "0", "after", tl, e, "none", t, cd, "valid")
      : c \in SmallContents, tl \in {"short", "long"}, cd \in Codecs}
   \cup {S("z", c, "echo", "0", "first", "0", "after", "short", e, "none", t, cd, zs)
-     : c \in SmallContents, cd \in Codecs, zs \in (IF e = "none" THEN {"unrec", "nocmd"} ELSE {"unrec"})}
+     : c \in SmallContents, cd \in Codecs, zs \in (IF e = "none" THEN {"unrec", "nocmd", "noisy"} ELSE {"unrec", "noisy"})}
   \cup (IF e # "none" THEN {} ELSE
         {S("z", c, "echo", "small", "last", "1", "after", tl, e, "none", t, cd, "trunc")
            : c \in SmallContents, tl \in {"short", "long"}, cd \in Codecs})
